@@ -41,7 +41,10 @@ def handleFile (op : String) (a : Args) : String :=
     | .error e => s!"err invalid {e.replace " " "_"}"
   | "footer" =>
     match footerOf file (a.nat "meta" != 0) with
-    | .ok (_, loc, flen) => s!"ok loc={loc} len={flen}"
+    | .ok (fmd, loc, flen) =>
+      match (if a.nat "meta" == 1 then rowCountProblem fmd else none) with
+      | some e => s!"err invalid {e.replace " " "_"}"
+      | none => s!"ok loc={loc} len={flen}"
     | .error e => s!"err invalid {e.replace " " "_"}"
   | _ => s!"err unknown-op file {op}"
 
